@@ -221,11 +221,24 @@ def cells(wb, inputs=None):
 
 
 def addr(n):
-    return f'{SHEET}!{n}'
+    """node id -> pycel address (nodes of other sheets carry their sheet: 'T!A1')"""
+    return n if '!' in n else f'{SHEET}!{n}'
+
+
+def node_of(address):
+    """pycel address -> node id"""
+    pre = SHEET + '!'
+    return address[len(pre):] if address.startswith(pre) else address
 
 
 # ---------------------------------------------------------------------------
 WORKBOOKS = {
+    # two sheets: formulas and a range on the second sheet, references across
+    'twosheet': dict(
+        inputs={'A1': 1, 'T!A1': 2, 'T!A2': 3},
+        formulas={'B1': ('Plus', ['A1', 'T!A1'], 0), 'T!B1': ('SumR', 'T!A1:A2'),
+                  'C1': ('Plus', ['B1', 'T!B1'], 1), 'D1': ('Cat', 'T!B1')},
+        ranges={'T!A1:A2': [['T!A1'], ['T!A2']]}),
     # C12: large values, where a relative closeness test is much looser than a tolerance
     'big': dict(
         inputs={'A1': 3000000, 'A2': 2},
